@@ -92,12 +92,14 @@ func stripSpaces(h string) string {
 	if !strings.HasPrefix(h, "bytes=") {
 		return h
 	}
-	spec := strings.TrimSpace(h[6:])
+	// optional whitespace in HTTP is space and horizontal tab, nothing else
+	trim := func(x string) string { return strings.Trim(x, " \t") }
+	spec := trim(h[6:])
 	i := strings.Index(spec, "-")
 	if i < 0 {
 		return "bytes=" + spec
 	}
-	return "bytes=" + strings.TrimSpace(spec[:i]) + "-" + strings.TrimSpace(spec[i+1:])
+	return "bytes=" + trim(spec[:i]) + "-" + trim(spec[i+1:])
 }
 
 func rangeHeaders(n int64) []string {
@@ -123,7 +125,8 @@ func rangeHeaders(n int64) []string {
 		}
 	}
 	for _, h := range []string{"bytes=", "bytes=1", "bytes=a-b", "bytes=1-2-3", "bytes=--1", "bytes=-", "bytes", "", "boats=0-1", "BYTES=0-1", "Bytes=0-1", "bytes=0-1,2-3", "bytes=0-0,-1", "bytes= 1 - 2 ", "bytes=1 -2", "bytes= -2", "bytes=1- ", "bytes=0x1-2", "bytes=1-2;q=1", "bytes=１-2", "bytes=+1-2", "bytes=1-+2", "bytes=1e0-2", " bytes=0-1", "bytes =0-1",
-		"bytes=0 1-0 2", "bytes=0 0-0 1", "bytes=0 1-", "bytes=-0 1", "bytes=0\t1-2", "bytes=1-0 2", "bytes=0-1 ,", "bytes=0-1, "} {
+		"bytes=0 1-0 2", "bytes=0 0-0 1", "bytes=0 1-", "bytes=-0 1", "bytes=0\t1-2", "bytes=1-0 2", "bytes=0-1 ,", "bytes=0-1, ",
+		"bytes=\u00a01-2", "bytes=1\u2003-2", "bytes=-\u30001", "bytes=0-1\u0085", "bytes=0-1,", "bytes=,0-1", "bytes=,"} {
 		add(h)
 	}
 	return out
@@ -131,7 +134,7 @@ func rangeHeaders(n int64) []string {
 
 func runC11(c *engine.Ctx) {
 	c.Rule = "case = (object size 0..N, Range header from the menu: every first/last/suffix value in -1..N+2 and around 2^31/2^63/2^64/10^30, whitespace variants, malformed specs, other units, multiple ranges) on every backend (and, on the memory backend, of an archived and of the current version read by versionId in a versioned bucket), compared with the arithmetic oracle and across backends; distinct_nontrivial = distinct (size, header) cases that are served as a satisfiable range"
-	c.Assumptions = append(c.Assumptions, "200 and 206 are both accepted for a served range (statement does not fix it)", "multi-range headers: 416, 501 NotImplemented or the whole object, identical on all backends", "whitespace in the spec may be trimmed (then served correctly) or rejected", "an explicit '+' sign is treated like whitespace: served as the number or rejected")
+	c.Assumptions = append(c.Assumptions, "200 and 206 are both accepted for a served range (statement does not fix it)", "multi-range headers: 416 or the whole object (no other failure, as the statement says), identical on all backends", "whitespace in the spec may be trimmed (then served correctly) or rejected", "an explicit '+' sign is treated like whitespace: served as the number or rejected")
 	N := int64(8)
 	kinds := drv.AllKinds
 	if !quick(c) {
@@ -273,7 +276,7 @@ func runC11(c *engine.Ctx) {
 			switch {
 			case exp.multi:
 				whole := r.Status == 200 && bytes.Equal(r.Body, body) && hget(r, "Content-Range") == ""
-				if !(is416 || (r.Status == 501 && r.ErrCode() == "NotImplemented") || whole) {
+				if !(is416 || whole) {
 					bad("multi-range", "-", "answered %s body=%q", r.Short(), r.Body)
 				}
 			case exp.ok:
